@@ -2,7 +2,7 @@
    Gallina so that the OCaml driver only moves bytes: one request line in, one
    canonical answer line out. *)
 From SJ Require Import Model.Base Model.RefTables Spec.Json Model.Number Model.Str
-     Model.Stage1 Model.Stage2 Model.Driver Model.Tape.
+     Model.Stage1 Model.Stage2 Model.Driver Model.Tape Model.Ring.
 From Coq Require Strings.String.
 Import String.StringSyntax.
 Open Scope string_scope.
@@ -66,7 +66,7 @@ Definition handle (req : bytes) : bytes :=
     if bytes_eqb op (lit "str") then
       match args with
       | [amax; acopy; aidx; amem] =>
-        match parse_string_model (arg_bytes amem) (N_of_dec aidx) (N.to_nat (N_of_dec amax)) (arg_bool acopy) 0 with
+        match parse_string_model (arg_bytes amem) (N_of_dec aidx) (N.to_nat (N_of_dec amax)) (arg_bool acopy) 0 (S (S (length (arg_bytes amem)))) with
         | Ok r => lit "ok " ++ hex16_of_N (ps_word r) ++ sp ++ dec_of_N (ps_len r) ++ sp ++ show_bytes (ps_app r)
         | Err => lit "err"
         | Crash => lit "crash"
@@ -131,6 +131,27 @@ Definition handle (req : bytes) : bytes :=
         match o_bufs o with
         | [] => lit "-"
         | _ => join 47 (map show_nats (bufs_incs 0 (o_bufs o)))
+        end
+      | _ => lit "badargs"
+      end
+    else if bytes_eqb op (lit "ring") then
+      (* ring <S> <CAP> <n> <events as letters A S T W R F> :
+         replays a recorded pipeline trace through the transition system *)
+      match args with
+      | [aS; aC; an; aevs] =>
+        let evs := flat_map (fun b => let c := b2n b in
+                     if c =? 65 then [Acquire] else if c =? 83 then [Send] else if c =? 84 then [SendTerm]
+                     else if c =? 87 then [RecvWait] else if c =? 82 then [Recv] else if c =? 70 then [Fail2] else []) aevs in
+        let S := N.to_nat (N_of_dec aS) in
+        let CAP := N.to_nat (N_of_dec aC) in
+        let s0 := Ring.init (N.to_nat (N_of_dec an)) in
+        match Ring.run S CAP s0 evs with
+        | None => lit "rejected"
+        | Some s =>
+          lit "ok safe=" ++ (if run_all_safe S CAP s0 evs then lit "1" else lit "0") ++
+          lit " final=" ++ (if Ring.final s then lit "1" else lit "0") ++
+          lit " consumed=" ++ dec_of_N (N.of_nat (length (consumed s))) ++
+          lit " inorder=" ++ (if list_nat_eqb (consumed s) (seq 0 (length (consumed s))) then lit "1" else lit "0")
         end
       | _ => lit "badargs"
       end
